@@ -484,11 +484,14 @@ class Engine:
         raise Undecided(f"str.{name} on symbolic string (line {getattr(node, 'lineno', '?')})")
 
     # ------------------------------------------------------------------ verification of one function
-    def explore(self, label, run_path):
-        stack = [[]]
+    def explore(self, label, run_path, roots=None, split_only=False):
+        """Depth-first exploration of all decision prefixes below `roots` (default: the whole tree).
+        split_only: run just the root path and hand back the alternative prefixes found along it (for parallel splitting)."""
+        stack = [list(r) for r in (roots if roots is not None else [[]])]
         npaths = 0
         undecided = []
         exits = {}
+        self.split_pending = []
         while stack:
             prefix = stack.pop()
             c = Ctx(self, prefix, label)
@@ -501,6 +504,10 @@ class Engine:
                 undecided.append(str(u))
             except RecursionError:
                 undecided.append("recursion limit")
+            if split_only:
+                self.split_pending = list(c.pending)
+                npaths += 1
+                break
             stack.extend(c.pending)
             npaths += 1
             if npaths > self.max_paths:
@@ -508,7 +515,7 @@ class Engine:
                 break
         return npaths, undecided, exits
 
-    def verify(self, key, fn=None, closure_env=None, only_case=None):
+    def verify(self, key, fn=None, closure_env=None, only_case=None, roots=None, split_only=False):
         """Check the body of the real function `key` against its contract, all cases, all paths."""
         ct = self.contracts[key]
         modname, qual = key.split(":")
@@ -569,13 +576,13 @@ class Engine:
                 self.frame_exit(c, ct, old, a, fnode, "frame")
                 return "normal"
             try:
-                n, und, exits = self.explore(label, run_path)
+                n, und, exits = self.explore(label, run_path, roots=roots, split_only=split_only)
             finally:
                 self.current_target = prev
             rep["cases"][case_name] = dict(paths=n, exits=exits)
             rep["paths"] += n
             rep["undecided"] += [f"{case_name}: {u}" for u in und]
-            if not any(k != "(cut)" for k in exits) and not und:
+            if not any(k != "(cut)" for k in exits) and not und and roots is None and not split_only:
                 rep["undecided"].append(f"{case_name}: no path reaches an exit (vacuous contract case)")
         rep["time_s"] = time.time() - t0
         self.fn_reports[key] = rep
